@@ -662,12 +662,20 @@ def fixed_recipes():
     R.append(('archive recorded before the generations',
               {'inds': [{}, {'op': 'mutation', 'parents': [0]}], 'gens': [{'members': [0]}, {'members': [1]}], 'snaps': [[0], [1]],
                'steps': [('g', 0), ('s', 0), ('g', 1), ('s', 1)]}))
-    # outside the guard of the theorems
-    R.append(('parent with native generation that is in no generation (not pool-closed)',
+    # individuals recorded nowhere but as parents / in the archive
+    R.append(('shared parent with native generation that is in no generation',
               {'inds': [{'ng': 0}, {'op': 'mutation', 'parents': [0]}, {'op': 'mutation', 'parents': [0]}],
                'gens': [{'members': [1, 2]}], 'snaps': [[1]]}))
-    R.append(('archive member in no generation (not pool-closed)',
-              {'inds': [{}, {}], 'gens': [{'members': [0]}], 'snaps': [[0, 1]]}))
+    R.append(('archive member in no generation', {'inds': [{}, {}], 'gens': [{'members': [0]}], 'snaps': [[0, 1]]}))
+    R.append(('archive-only member with parents and an ancestor recorded nowhere',
+              {'inds': [{}, {'ng': 3}, {'op': 'crossover', 'parents': [0, 1], 'evaluated': False}, {'op': 'mutation', 'parents': [2]},
+                        {'op': 'mutation', 'parents': [2]}],
+               'gens': [{'members': [0]}], 'snaps': [[0, 3], [4, 3]]}))
+    R.append(('only an archive, no generation', {'inds': [{}, {'op': 'mutation', 'parents': [0]}], 'gens': [], 'snaps': [[1]]}))
+    # outside the domain of the property (two objects carry one uid): correspondence only
+    R.append(('two distinct individuals with one uid (out of domain)',
+              {'inds': [{'uid': 'dup'}, {'uid': 'dup'}, {'op': 'mutation', 'parents': [0]}],
+               'gens': [{'members': [0]}, {'members': [1, 2]}], 'snaps': [[0], [1]]}))
     return R
 
 
@@ -684,8 +692,10 @@ def random_recipe(rng):
             np_ = 1 if spec['op'] == 'mutation' else rng.choice([1, 2, 2, 3])
             spec['parents'] = [rng.randrange(k) for _ in range(np_)]
             spec['ops'] = [rng.choice(['single_add', 'single_drop', 'subtree', 'one_point'])] * rng.choice([1, 1, 2])
-        inter = k and rng.random() < 0.3     # an intermediate ancestor: in no generation, not evaluated
-        spec['evaluated'] = not inter
+        inter = k and rng.random() < 0.3     # in no generation: an intermediate ancestor, usually not evaluated
+        spec['evaluated'] = (not inter) or rng.random() < 0.2
+        if inter and rng.random() < 0.2:
+            spec['ng'] = rng.randrange(4)    # carries a native generation although no generation lists it
         inds.append(spec)
         if not inter:
             gi = min(n_gens - 1, (k * n_gens) // max(1, n))
@@ -705,6 +715,8 @@ def random_recipe(rng):
             snaps.append(sorted(set(rng.sample(g['members'], rng.randrange(1, len(g['members']) + 1)))))
         else:
             snaps.append([])
+        if rng.random() < 0.2:
+            snaps[-1].append(rng.randrange(n))   # an archive member taken from anywhere (possibly in no generation)
     return {'seed': rng.randrange(10 ** 6), 'multi': multi, 'metric_names': (['q', 'c'] if multi else rng.choice([[], ['q']])),
             'inds': inds, 'gens': gens, 'snaps': snaps, 'tuning': rng.random() < 0.2}
 
@@ -809,8 +821,7 @@ def check_legacy_tables(ctx):
             importlib.import_module(new)
         except Exception as ex:
             ctx.violate('legacy-paths', {'module': new, 'legacy': old},
-                        'target of LEGACY_MODULE_PATHS is not importable (%s): classes saved under %s.* are not restored' % (ex, old),
-                        finding_key='C10.legacy-utilities-module' if new == 'golem.core.utilities' else None)
+                        'target of LEGACY_MODULE_PATHS is not importable (%s): classes saved under %s.* are not restored' % (ex, old))
     for old, new in cls:
         m, c = new.split('/')
         if import_object(m, c) is None:
@@ -855,16 +866,10 @@ def evaluate(ctx, group, items):
                   multi=o['mem']['obj']['multi'])
         if not ag:
             ctx.disagree(group, {'recipe': case, 'summary': s}, 'model and implementation differ (encode / decode / re-encode)')
-        if not ho:
-            if not guard:
-                # outside the guard of the theorems: the pool does not contain every referenced individual
-                ctx.violate(group, {'recipe': case, 'summary': s},
-                            'history that is not pool-closed is not restored: a parent / archive member that is outside the '
-                            'generations is replaced by MISSING_INDIVIDUAL placeholders (one per reference)',
-                            finding_key='C10.missing-individual')
-            else:
-                ctx.violate(group, {'recipe': case, 'summary': s}, 'round trip does not preserve the history: ' + (
-                    s['fitness_detail'] if not o['fitness_ok'] else ('re-saved text differs' if not o['text_equal'] else 'content or sharing differs')))
+        if not ho and guard:
+            # (outside the guard - two live objects with one uid, uid strings as parents - the property does not apply)
+            ctx.violate(group, {'recipe': case, 'summary': s}, 'round trip does not preserve the history: ' + (
+                s['fitness_detail'] if not o['fitness_ok'] else ('re-saved text differs' if not o['text_equal'] else 'content or sharing differs')))
     return res
 
 
@@ -901,7 +906,7 @@ def run(ctx):
                 'classes over random configurations, (b) synthetic histories built with OptHistory / Individual / ParentOperator / '
                 'add_to_history / add_to_archive_history: the fixed adversarial shapes (empty, zero generations, shared parents, deep '
                 'and shared intermediate lineage, repeated individuals, multi-objective, labels, metadata, archive of intermediates, '
-                'not pool-closed) and random lineage DAGs, (c) the stored legacy files and current saves rewritten to the earlier '
+                'parents and archive members recorded in no generation) and random lineage DAGs, (c) the stored legacy files and current saves rewritten to the earlier '
                 'class paths / keys / plain-list generations; plus every individual dump written during (a) and (b), plus the legacy '
                 'path tables; distinct = distinct configuration / recipe / file; non-trivial = pool of at least 2 individuals with a parent link')
     ctx.trusted_extra = [
@@ -954,7 +959,7 @@ def run(ctx):
                 ctx.disagree('synthetic', {'recipe': rc}, 'unexpected shape: %s' % ex)
                 continue
             items.append((desc, rc, o))
-            if desc.startswith('deep') or desc.startswith('parent with'):
+            if desc.startswith('deep') or desc.startswith('shared parent with'):
                 ctx.sample(summary(o, desc))
         syn_items = list(items)
         # canary: a loaded history in which one individual lost its native generation
